@@ -55,4 +55,17 @@ def statesAtStr (m : MagnetObj) : List MOp → List MagnetObj
   | .plainEdit g :: ops => statesAtStr (g m) ops
   | .str :: ops => m :: statesAtStr m ops
 
+/-- the number of `key=value` fields of the rendered link of a well-formed magnet: `xt`, one for each
+    of `dn` / `xl` / `xs` that is set, one for all keywords together, one per tracker, one per
+    webseed — unbounded: the constructor accepts URL lists of any length -/
+def fieldCount (m : MagnetObj) : Nat :=
+  1 + (if m.dn.isSome then 1 else 0) + (if m.xl.isSome then 1 else 0) + (if m.xs.isSome then 1 else 0)
+  + (if m.kt.isEmpty then 0 else 1) + m.tr.length + m.ws.length
+
+/-- `n` distinct URLs (for every validity predicate that accepts everything): 'a', 'aa', 'aaa', … -/
+def manyUrls (n : Nat) : List Str := (List.range n).map fun i => List.replicate (i + 1) 'a'
+
+/-- a well-formed magnet with `n` trackers (`n + 1` fields) -/
+def bigMagnet (n : Nat) : MagnetObj := { infohash := List.replicate 40 'a', tr := manyUrls n }
+
 end Torf.Magnet
